@@ -31,7 +31,7 @@ claim("C06", "E3", "model_checking",
       "scripted handlers; the reference server's handlers are exercised under C07", "3/C06")
 claim("C08", "E3", "model_checking",
       "explicit enumeration of all packet histories up to a depth on the real Serve loop in lock-step with a connection model",
-      "All histories of (session, sequence number, handler action) up to depth 4 (quick) / 5 (thorough) are executed on fresh scripted connections; the invoked handler instance, the output and the open/closed state are compared with the reference connection model after every event.",
+      "All histories of (session, sequence number, handler action) up to depth 4 (quick) / 5 (thorough) are executed on fresh scripted connections; the invoked handler instance, the output and the open/closed state are compared with the reference connection model after every event. Additionally (engine E2) every script of 2-3 pipelined packets - on the wire before the server has answered anything - on a plain and on a single-connect connection runs under the controlled scheduler, all schedules with at most 1 (quick) / 2 (thorough) deviations: handler instances, their order and the replies must be what the model says when it judges the packets one after the other.",
       "two session ids, eight sequence values, histories deeper than the bound are not explored", "3/C08")
 claim("C19", "E1", "exploration",
       "bounded-exhaustive enumeration of the bytes the server sees (and of key pairs) on the real read path, classified by an independent length-consistency evaluator",
@@ -88,7 +88,7 @@ claim("C09", "E3", "model_checking",
       "scripts are fixed packet lists; more than three simultaneous sessions are not explored", "3/C09")
 claim("C15", "E2", "model_checking",
       "stateless deviation-bounded exploration of goroutine interleavings of the instrumented real code under a controlled scheduler, with a per-schedule happens-before race oracle (Go race detector blinded to the scheduler)",
-      "Thirteen harnesses (concurrent connections on shared policy data, accept loop with opening/closing/refused connections, lookups concurrent with reloads, a consumer of a published configuration concurrent with the next load, the loader's update loop polling the real file-loader object while the next document is loaded, multiplexed sessions, cancellation during serving, cancellation racing the next requests of an idle connection with a pending session) run the real sync/goroutine/channel code on a cooperative scheduler; "
+      "Fourteen harnesses (concurrent connections on shared policy data, accept loop with opening/closing/refused connections, lookups concurrent with reloads, a consumer of a published configuration concurrent with the next load, the loader's update loop polling the real file-loader object while the next document is loaded, multiplexed sessions, cancellation during serving, cancellation racing the next requests of an idle connection with a pending session, two concurrent logins of one user with different passwords) run the real sync/goroutine/channel code on a cooperative scheduler; "
       "every schedule with at most 1 (quick) / 2 (thorough) deviations is executed under -race. A race report, a lookup that observes a mixture of two configurations, a published configuration that changes, a deadlock or a wrong reply is a violation.",
       "schedules with more deviations than the bound and code not reached by the harnesses are not covered; ThreadSanitizer treats the prometheus atomics as synchronisation, so statement-level points are inserted where handlers touch shared policy data (types.go TrimSpace, stringy evaluate, loader.updates)", "3/C15")
 claim("C17", "E2", "model_checking",
